@@ -65,7 +65,7 @@ def flags_for(open_ids):
         if kid in open_ids:
             nf |= e["no_features"]
             used.append(kid)  # C21-KF3 is excluded in the rendering (case["wat"]["cond_names"]), not in the generator
-    return G.Flags(no_features=nf), used
+    return G.Flags(no_features=nf, extras={"limit_edges"}), used
 
 
 _NODE = [None]
